@@ -3,7 +3,7 @@ from .. import conncheck
 
 SERVER = ['eof', 'text', 'ping', 'frag-text', 'frag-cont', 'frag-end', 'close-1000', 'close-3000', 'close-empty', 'silence',
           'ping-text-close', 'close-123', 'ctext', 'cfrag-text']
-APPS = ['close', 'close-3001', 'close-none', 'send_text', 'send_binary', 'send_ping', 'send_pong']
+APPS = ['close', 'close-3001', 'close-none', 'close-bad-bytes', 'close-too-long', 'send_text', 'send_binary', 'send_ping', 'send_pong']
 
 
 class C08(conncheck.ConnCheck):
